@@ -23,31 +23,32 @@ import (
 )
 
 type req struct {
-	ID       json.RawMessage `json:"id"`
-	Op       string          `json:"op"`
-	Doc      json.RawMessage `json:"doc"`
-	SQL      string          `json:"sql"`
-	Wrapped  bool            `json:"wrapped"`
-	Pg       bool            `json:"pg"`
-	Arr      bool            `json:"arr"`
-	Consts   json.RawMessage `json:"consts"`
-	Vars     json.RawMessage `json:"vars"`
-	FailAt   int64           `json:"failAt"`
-	Latency  []int           `json:"latency"` // per-call latency in microseconds (cycled)
-	Selector string          `json:"selector"`
-	A        json.RawMessage `json:"a"`
-	B        json.RawMessage `json:"b"`
-	Args     json.RawMessage `json:"args"`
-	Text     string          `json:"text"`
-	Pattern  string          `json:"pattern"`
-	Name     string          `json:"name"`
-	Repeat   int             `json:"repeat"`
-	TimeoutM int             `json:"timeoutMs"`
-	NumKind  string          `json:"numKind"` // store integral numbers of the document as this Go kind
-	Tables   string          `json:"tables"`  // "maps": top-level arrays of objects become []map[string]any (typed slices)
-	ReExec   bool            `json:"reExec"`  // query op: call Exec a second time on the same *Query ("v2" / "r2")
-	TopName  string          `json:"topName"` // reader op: (re-)register this top-level function first ...
-	TopImpl  string          `json:"topImpl"` // ... as count | wrap | id | first
+	ID          json.RawMessage `json:"id"`
+	Op          string          `json:"op"`
+	Doc         json.RawMessage `json:"doc"`
+	SQL         string          `json:"sql"`
+	Wrapped     bool            `json:"wrapped"`
+	Pg          bool            `json:"pg"`
+	Arr         bool            `json:"arr"`
+	Consts      json.RawMessage `json:"consts"`
+	Vars        json.RawMessage `json:"vars"`
+	FailAt      int64           `json:"failAt"`
+	Latency     []int           `json:"latency"` // per-call latency in microseconds (cycled)
+	Selector    string          `json:"selector"`
+	A           json.RawMessage `json:"a"`
+	B           json.RawMessage `json:"b"`
+	Args        json.RawMessage `json:"args"`
+	Text        string          `json:"text"`
+	Pattern     string          `json:"pattern"`
+	Name        string          `json:"name"`
+	Repeat      int             `json:"repeat"`
+	TimeoutM    int             `json:"timeoutMs"`
+	NumKind     string          `json:"numKind"`     // store integral numbers of the document as this Go kind
+	Tables      string          `json:"tables"`      // "maps": top-level arrays of objects become []map[string]any (typed slices)
+	ReExec      bool            `json:"reExec"`      // query op: call Exec a second time on the same *Query ("v2" / "r2")
+	CompletedCb string          `json:"completedCb"` // query op: pass CompletedCallback: "count" counts the calls, "panic" panics in it
+	TopName     string          `json:"topName"`     // reader op: (re-)register this top-level function first ...
+	TopImpl     string          `json:"topImpl"`     // ... as count | wrap | id | first
 }
 
 // the top-level functions a reader request can (re-)register under a name of its choosing
@@ -161,6 +162,16 @@ func registerFunctions() {
 		}
 		return nil, fmt.Errorf("vf_err: injected error")
 	})
+	// functions that come in through the "external" registration API (no query / row / options arguments)
+	genql.Import(map[string]func([]any) (any, error){
+		"vf_ext": func(args []any) (any, error) {
+			if len(args) == 0 {
+				return nil, nil
+			}
+			return args[0], nil
+		},
+	})
+	genql.RegisterExternalFunction("VF_Ext_Fail", func(args []any) (any, error) { return nil, fmt.Errorf("external function fails") })
 	genql.RegisterImmediateFunction("VF_Imm_Mixed", func(q *genql.Query, cur genql.Map, o *genql.FunctionOptions, args []any) (any, error) {
 		callCount.Add(1)
 		if len(args) != 1 {
@@ -569,6 +580,16 @@ func opQuery(r *req) (out resp) {
 			}
 		}
 	}
+	var completedCalls atomic.Int64
+	if r.CompletedCb != "" {
+		panics := r.CompletedCb == "panic"
+		opts = append(opts, genql.CompletedCallback(func() {
+			completedCalls.Add(1)
+			if panics {
+				panic("the completed callback panics")
+			}
+		}))
+	}
 	opts = append(opts, genql.UnReportedErrors(func(err error) {
 		reportedMu.Lock()
 		reportedErr = append(reportedErr, "reported")
@@ -626,6 +647,9 @@ func opQuery(r *req) (out resp) {
 			}
 		}
 	}()
+	if r.CompletedCb != "" {
+		out["completedCalls"] = completedCalls.Load()
+	}
 	out["calls"] = callCount.Load()
 	out["started"] = started.Load()
 	out["completed"] = completed.Load()
